@@ -106,6 +106,14 @@ class InjectedFault(Exception):
     """Raised at a fault site chosen by the fault plan (C03)."""
 
 
+class HostileFault(InjectedFault):
+    """An exception that cannot even be turned into text (its __str__ raises): whatever handles it must not depend on
+    formatting it eagerly."""
+
+    def __str__(self):
+        raise RuntimeError('this exception cannot be formatted')
+
+
 NOVALUE = '<resume-without-value>'
 _RESUME_POOL = ('rv', 0, '', None, False, [], {}, NOVALUE, 'rv')
 
@@ -150,8 +158,10 @@ class World:
         self.events = []
         self.handover = []  # children a step started (a few steps) and left unfinished: finished by the environment at top level
         self.adoptable = []  # processes the environment started at top level, to be finished from inside some process's step
+        self.result_futures = []  # futures returned by steps as their plain result
         self.tokens = []  # Token objects handed to Continue by steps (identity is checked by the receiving step)
         self.site_hook = None  # callable(proc, site, count): the environment acting from inside user code (e.g. a pause)
+        self.hostile = False  # raise HostileFault instead of InjectedFault
         self.fault = None  # (site, occurrence) -> raise InjectedFault there
         self.fault_counts = {}
         self.fault_fired = None  # the InjectedFault instance once raised
@@ -187,7 +197,7 @@ class World:
             self.site_hook(proc, site, count)
         fault = self.fault
         if fault is not None and fault[0] == site and fault[1] == count and self.fault_fired is None:
-            exc = InjectedFault(f'{site}#{count}')
+            exc = (HostileFault if self.hostile else InjectedFault)(f'{site}#{count}')
             self.fault_fired = exc
             self.rec('fault', site, count)
             raise exc
@@ -214,7 +224,7 @@ def _do_effect(proc, world, eff, plumpy):
         ident, fail = eff['id'], bool(eff.get('fail'))
 
         def callback(ident=ident, fail=fail, proc=proc):
-            world.rec('callback', label(proc), ident, plumpy.Process.current() is proc, proc.state.value)
+            world.rec('callback', label(proc), ident, current_is(proc, plumpy), proc.state.value)
             world.site(proc, f'callback:{ident}')
             if fail:
                 exc = CallbackError(f'callback {ident}')
@@ -223,9 +233,9 @@ def _do_effect(proc, world, eff, plumpy):
 
         async def async_callback(ident=ident, fail=fail, proc=proc):
             # a coroutine function as callback: probed before and after an await
-            world.rec('callback', label(proc), ident, plumpy.Process.current() is proc, proc.state.value)
+            world.rec('callback', label(proc), ident, current_is(proc, plumpy), proc.state.value)
             await asyncio.sleep(0)
-            world.rec('callback', label(proc), f'{ident}+', plumpy.Process.current() is proc, proc.state.value)
+            world.rec('callback', label(proc), f'{ident}+', current_is(proc, plumpy), proc.state.value)
             world.site(proc, f'callback:{ident}')
             if fail:
                 exc = CallbackError(f'callback {ident}')
@@ -240,14 +250,14 @@ def _do_effect(proc, world, eff, plumpy):
             ident = eff['id']
 
             def parent_callback(ident=ident, parent=parent):
-                world.rec('callback', label(parent), f'from-child:{ident}', plumpy.Process.current() is parent,
+                world.rec('callback', label(parent), f'from-child:{ident}', current_is(parent, plumpy),
                           parent.state.value)
 
             async def parent_coro_callback(ident=ident, parent=parent):
-                world.rec('callback', label(parent), f'from-child:{ident}', plumpy.Process.current() is parent,
+                world.rec('callback', label(parent), f'from-child:{ident}', current_is(parent, plumpy),
                           parent.state.value)
                 await asyncio.sleep(0)
-                world.rec('callback', label(parent), f'from-child:{ident}+', plumpy.Process.current() is parent,
+                world.rec('callback', label(parent), f'from-child:{ident}+', current_is(parent, plumpy),
                           parent.state.value)
 
             parent.call_soon(parent_coro_callback if eff.get('coro') else parent_callback)
@@ -261,7 +271,7 @@ def _do_effect(proc, world, eff, plumpy):
             child._sim_label = child_label
             world.children.append(child)
             world.parent_of[id(child)] = proc
-            world.rec('launched', label(proc), child_label, plumpy.Process.current() is proc)
+            world.rec('launched', label(proc), child_label, current_is(proc, plumpy))
         else:
             child = child_cls(loop=proc.loop)
             child._sim_label = child_label
@@ -272,7 +282,7 @@ def _do_effect(proc, world, eff, plumpy):
                 outputs = child.execute()
             finally:
                 world.exec_stack.pop()
-            world.rec('after_nested', label(proc), child_label, plumpy.Process.current() is proc, freeze(outputs),
+            world.rec('after_nested', label(proc), child_label, current_is(proc, plumpy), freeze(outputs),
                       child.state.value)
     elif kind in ('pause', 'play', 'kill'):
         live = not proc.has_terminated()
@@ -301,6 +311,39 @@ def _result_class(result):
     return type(result).__name__
 
 
+_subclasses = {}
+
+
+def _unsuccessful_subclass(plumpy):
+    if 'unsuccessful' not in _subclasses:
+        _subclasses['unsuccessful'] = type('ExitCode', (plumpy.UnsuccessfulResult,), {})
+    return _subclasses['unsuccessful']
+
+
+def _unrelated_class(plumpy):
+    """A Process subclass none of the generated processes is an instance of: current() asked through it is still the
+    process whose code runs (it is a classmethod of Process, not a typed lookup)."""
+    if 'unrelated' not in _subclasses:
+        _subclasses['unrelated'] = type('UnrelatedProcess', (plumpy.Process,), {})
+    return _subclasses['unrelated']
+
+
+def current_is(proc, plumpy):
+    return plumpy.Process.current() is proc and _unrelated_class(plumpy).current() is proc
+
+
+class UncopyableValue:
+    """A result that cannot be copied or pickled (it holds a lock), e.g. a handle to a live resource."""
+
+    def __init__(self):
+        import threading
+
+        self.lock = threading.Lock()
+
+    def __repr__(self):
+        return 'UncopyableValue()'
+
+
 def _make_ret(proc, world, ret, plumpy):
     kind = ret['t']
     if kind == 'continue':
@@ -316,10 +359,20 @@ def _make_ret(proc, world, ret, plumpy):
             return plumpy.Wait(None, ret.get('msg'), ret.get('data'))  # a wait without continuation (can only be killed)
         return plumpy.Wait(getattr(proc, step_name(ret['to'])), ret.get('msg'), ret.get('data'))
     if kind == 'value':
+        if ret.get('future'):
+            # the plain result of the step is a future object (resolved or pending): a value like any other
+            future = asyncio.Future()
+            if ret['future'] == 'done':
+                future.set_result('inner value')
+            world.result_futures.append(future)
+            return future
         return ret['v']
     if kind == 'stop':
         return plumpy.Stop(ret['v'], ret['ok'])
     if kind == 'unsuccessful':
+        if ret.get('sub'):
+            # an application's own exit-code class derived from UnsuccessfulResult
+            return _unsuccessful_subclass(plumpy)(ret['v'])
         return plumpy.UnsuccessfulResult(ret['v'])
     if kind == 'kill':
         from plumpy.process_comms import MessageBuilder
@@ -351,7 +404,7 @@ def _make_step(index, step, world, plumpy):
             freeze(kwargs),
             self.paused,
             self.status,
-            plumpy.Process.current() is self,
+            current_is(self, plumpy),
         )
         trace = getattr(self, '_trace', None)
         if trace is not None:
@@ -383,7 +436,7 @@ def _make_step(index, step, world, plumpy):
                         world.children.append(child)
                         world.parent_of[id(child)] = self
                         await child.step_until_terminated()
-                        world.rec('after_nested', label(self), child._sim_label, plumpy.Process.current() is self, None,
+                        world.rec('after_nested', label(self), child._sim_label, current_is(self, plumpy), None,
                                   child.state.value)
                     elif eff['e'] == 'start_child':
                         # the step takes a child through its first step(s) only; somebody else finishes it later, from
@@ -397,7 +450,7 @@ def _make_step(index, step, world, plumpy):
                         for _ in range(eff.get('n', 1)):
                             if not child.has_terminated():
                                 await child.step()
-                        world.rec('after_nested', label(self), child._sim_label, plumpy.Process.current() is self, None,
+                        world.rec('after_nested', label(self), child._sim_label, current_is(self, plumpy), None,
                                   child.state.value)
                         if not child.has_terminated():
                             world.handover.append(child)
@@ -407,14 +460,14 @@ def _make_step(index, step, world, plumpy):
                             target = world.adoptable.pop(0)
                             if not target.has_terminated():
                                 await target.step_until_terminated()
-                            world.rec('after_nested', label(self), label(target), plumpy.Process.current() is self, None,
+                            world.rec('after_nested', label(self), label(target), current_is(self, plumpy), None,
                                       target.state.value)
                     else:
                         _do_effect(self, world, eff, plumpy)
                 if gi < len(awaits):
                     await asyncio.sleep(awaits[gi])
                     world.rec(
-                        'resumed', label(self), name, gi, self.paused, self.status, plumpy.Process.current() is self
+                        'resumed', label(self), name, gi, self.paused, self.status, current_is(self, plumpy)
                     )
                     world.site(self, f'step:{name}@{gi}')
             return _make_ret(self, world, step['ret'], plumpy)
@@ -616,7 +669,7 @@ def model_run(program, resume_values=None, max_steps=64, repeats=()):
             continue
         satisfied = not program.get('required_output') or 'req' in outputs
         if kind == 'value':
-            return dict(base, final='finished', result=ret['v'], ok=satisfied, waits=waits)
+            return dict(base, final='finished', result='<future>' if ret.get('future') else ret['v'], ok=satisfied, waits=waits)
         if kind == 'stop':
             return dict(base, final='finished', result=ret['v'], ok=bool(ret['ok']) and satisfied, waits=waits)
         if kind == 'unsuccessful':
@@ -698,13 +751,17 @@ def gen_process_program(rng, cfg=None):
             kind = terminal[rng.randrange(len(terminal))]
             if kind == 'value':
                 ret = {'t': 'value', 'v': gen_value(rng)}
+                if cfg.get('future_results') and not is_async and rng.random() < 0.15:
+                    ret['future'] = rng.choice(['done', 'pending'])
             elif kind == 'stop':
                 ret = {'t': 'stop', 'v': gen_value(rng), 'ok': rng.random() < 0.5}
             elif kind == 'unsuccessful':
                 ret = {'t': 'unsuccessful', 'v': rng.choice([1, 2, 400, 0, None, '', False])}
+                if rng.random() < 0.3:
+                    ret['sub'] = True
             elif kind == 'kill':
                 ret = {'t': 'kill', 'msg': rng.choice([None, '', 'prog-kill'])}
-                if cfg.get('raw_kill') and rng.random() < 0.4:
+                if cfg.get('raw_kill', True) and rng.random() < 0.3:
                     ret = {'t': 'kill', 'msg': None, 'raw': True}
             else:
                 ret = {'t': 'raise', 'msg': f'boom{index}'}
